@@ -2,10 +2,11 @@
 # For a property ID whose seeding agent delivered /tmp/seeded-<ID>-{1,2,3}: confirm each change in the scratch
 # worktree /tmp/seed-<ID>, run the property's quick check against that worktree with the change applied
 # (never touching /repo), and keep it under /verif/seeded/.   usage: seedround.sh <ID>
-id="$1"
+id="$1"; shift
+ks="${@:-1 2 3}"
 wt=/tmp/seed-$id
 export VERIF_WORK=/verif/.work-seed VERIF_EVIDENCE=/verif/.work-seed/evidence VERIF_REPLAYS=/verif/.work-seed/replays
-for k in 1 2 3; do
+for k in $ks; do
   sd=/tmp/seeded-$id-$k
   [ -f $sd/patch.diff ] || { echo "SEED $id-$k missing"; continue; }
   conf=$(/verif/tools/confirm_seed.sh $sd $wt 2>&1 | grep RESULT | sed 's/^RESULT [^ ]* //')
